@@ -469,3 +469,48 @@ def contains_subseq(walk_edges, seq):
         if j < len(seq) and e == seq[j]:
             j += 1
     return j == len(seq)
+
+
+# ----------------------------------------------------------------- walk-cover width (independent of the library's expanded condensation)
+def walk_cover_paths(G, S, T, limit=20000):
+    """Paths of the SCC multigraph: nodes = SCCs, arcs = original inter-SCC edges. A source-to-sink walk of G corresponds to
+    a path here (inside an SCC a walk can cover everything). Returns (comp, list of (start_scc, [arcs]))."""
+    comp = scc_map(G)
+    arcs = [(u, v) for u, v in G.edges if comp[u] != comp[v]]
+    out = collections.defaultdict(list)
+    for a in arcs:
+        out[comp[a[0]]].append(a)
+    ends = {comp[t] for t in T}
+    paths = []
+
+    def rec(c, used, start):
+        if c in ends:
+            paths.append((start, list(used)))
+            if len(paths) > limit:
+                raise RefTimeout("too many SCC paths")
+        for a in out.get(c, []):
+            used.append(a); rec(comp[a[1]], used, start); used.pop()
+
+    for s in sorted({comp[s] for s in S}):
+        rec(s, [], s)
+    return comp, paths
+
+
+def walk_cover_width(G, S=None, T=None, ignore=(), extra_required_sets=None):
+    """Minimum number of S-T walks covering every non-ignored edge of G (None if impossible)."""
+    S = list(S if S is not None else sources(G)); T = list(T if T is not None else sinks(G))
+    ignore = set(ignore)
+    comp, paths = walk_cover_paths(G, S, T)
+    req_arcs = [(u, v) for u, v in G.edges if comp[u] != comp[v] and (u, v) not in ignore]
+    req_sccs = {comp[u] for u, v in G.edges if comp[u] == comp[v] and (u, v) not in ignore}
+    cols = []
+    for st, p in paths:
+        d = {("arc", a): 1 for a in p}
+        d[("scc", st)] = 1
+        for a in p:
+            d[("scc", comp[a[1]])] = 1
+        cols.append(d)
+    required = [("arc", a) for a in req_arcs] + [("scc", c) for c in req_sccs]
+    if not required:
+        return 0
+    return cover_min(cols, required)
